@@ -364,6 +364,37 @@ func Define[C any](p *Prop, name string, draw func(*rapid.T) C, run func(*Ctx, C
 	return d
 }
 
+// guard runs the body and turns a panic that escapes it into a violation of the property: every property
+// except the "allowed only if" ones promises a result, and a crash is a failure to deliver it (C09 owns
+// crash-freedom on hostile input; the others see crashes on the inputs of their own domain; the "allowed
+// only if" bodies of C01..C04 recover the calls they judge themselves, a panic being a denial there). rapid's own
+// control-flow panics are passed through.
+func (d *Def[C]) guard(c *Ctx, cas C) {
+	defer func() {
+		r := recover()
+		if r == nil {
+			return
+		}
+		if tn := fmt.Sprintf("%T", r); strings.HasPrefix(tn, "rapid.") || strings.HasPrefix(tn, "*rapid.") {
+			panic(r)
+		}
+		st := string(debug.Stack())
+		fn := "?"
+		for _, ln := range strings.Split(st, "\n") {
+			if strings.Contains(ln, "go-ucan") && strings.Contains(ln, "(") && !strings.HasPrefix(ln, "\t") {
+				fn = ln[:strings.LastIndex(ln, "(")]
+				if i := strings.LastIndex(fn, "/"); i >= 0 {
+					fn = fn[i+1:]
+				}
+				break
+			}
+		}
+		c.P.PanicSeen()
+		c.Fail(c.P.ID+"/panic/"+fn, "panic while the property body ran: %v\n%s", r, st)
+	}()
+	d.Run(c, cas)
+}
+
 // Check runs the body under rapid. The number of cases comes from
 // -rapid.checks (set by the driver).
 func (d *Def[C]) Check(t *testing.T) {
@@ -379,11 +410,29 @@ func (d *Def[C]) Check(t *testing.T) {
 			b, _ := json.Marshal(rf)
 			_ = os.WriteFile(inflight, b, 0o644)
 		}
-		d.Run(&Ctx{P: d.P, T: rt, def: d.Name, cas: cas, Mode: "rapid"}, cas)
+		d.guard(&Ctx{P: d.P, T: rt, def: d.Name, cas: cas, Mode: "rapid"}, cas)
 	})
 	if inflight != "" {
 		_ = os.Remove(inflight)
 	}
+}
+
+// Enumerate runs a hand-written enumeration loop. The loop keeps *cur pointing at the case it is working on
+// and calls the library directly (fast path); when the library panics, the case in *cur is re-run through
+// the body, which reports it (guard), instead of the process dying with an INCONCLUSIVE result.
+func (d *Def[C]) Enumerate(t TB, cur *C, loop func()) {
+	defer func() {
+		if r := recover(); r != nil {
+			if tn := fmt.Sprintf("%T", r); strings.HasPrefix(tn, "rapid.") || strings.HasPrefix(tn, "*rapid.") {
+				panic(r)
+			}
+			d.One(t, *cur)
+			// the body did not reproduce the panic: report it all the same
+			c := &Ctx{P: d.P, T: t, def: d.Name, cas: *cur, Mode: "enum"}
+			c.Fail(d.P.ID+"/panic/enumeration", "panic inside an enumeration: %v\n%s", r, debug.Stack())
+		}
+	}()
+	loop()
 }
 
 // One runs the body on one explicitly constructed case (enumerations,
@@ -395,7 +444,7 @@ func (d *Def[C]) One(t TB, cas C) {
 		b, _ := json.Marshal(rf)
 		_ = os.WriteFile(inflight, b, 0o644)
 	}
-	d.Run(&Ctx{P: d.P, T: t, def: d.Name, cas: cas, Mode: "enum"}, cas)
+	d.guard(&Ctx{P: d.P, T: t, def: d.Name, cas: cas, Mode: "enum"}, cas)
 }
 
 func (d *Def[C]) replay(t *testing.T, raw json.RawMessage) {
@@ -404,7 +453,7 @@ func (d *Def[C]) replay(t *testing.T, raw json.RawMessage) {
 		t.Fatalf("INCONCLUSIVE cannot decode replay case: %v", err)
 	}
 	d.P.Eval()
-	d.Run(&Ctx{P: d.P, T: t, def: d.Name, cas: cas, Mode: "replay"}, cas)
+	d.guard(&Ctx{P: d.P, T: t, def: d.Name, cas: cas, Mode: "replay"}, cas)
 }
 
 // Replay re-executes the case stored in $VERIF_REPLAY.
